@@ -20,10 +20,11 @@ type Env struct {
 	fr   *FnRun
 	pkg  string // package whose constants are in scope
 	args map[string]Val // set while a CALLEE's contract is applied: its parameters at the call
+	assuming bool       // the clause is being ASSUMED (a callee's postcondition), not proved
 }
 
 func (e *Env) with(name string, v Val) *Env {
-	n := &Env{st: e.st, old: e.old, fr: e.fr, pkg: e.pkg, args: e.args, vars: map[string]Val{}}
+	n := &Env{st: e.st, old: e.old, fr: e.fr, pkg: e.pkg, args: e.args, assuming: e.assuming, vars: map[string]Val{}}
 	for k, x := range e.vars {
 		n.vars[k] = x
 	}
@@ -597,6 +598,35 @@ func (fr *FnRun) evalCall(e *Expr, env *Env) Val {
 	case "isnil":
 		need(1)
 		return fr.specEq(env.st, arg(0), nilMarker{})
+	case "each":
+		// each(s, e, pred): every element of the reference-typed slice s satisfies pred (with e bound
+		// to the element).  Only in ASSUMED postconditions (dependency contracts): the fact is attached
+		// to the backing array and assumed for each element as it is read.
+		if len(e.Args) != 3 || e.Args[1].Kind != "ident" {
+			panic(abortf("contract: each(slice, name, predicate)"))
+		}
+		if !env.assuming {
+			panic(abortf("contract: each() can only appear in an assumed postcondition"))
+		}
+		sv, ok := ex.force(env.st, fr.eval(e.Args[0], env)).(*SliceV)
+		if !ok || sv.Arr == nil {
+			panic(abortf("contract: each() of a value that is not a slice with a backing array"))
+		}
+		av, ok := env.st.heap[sv.Arr].(*ArrayV)
+		if !ok {
+			av = fr.arrOf(env.st, sv)
+		}
+		ra, ok := av.Data.(*RefArr)
+		if !ok {
+			panic(abortf("contract: each() needs a slice of reference-typed elements"))
+		}
+		body, name, venv := e.Args[2], e.Args[1].Name, env
+		ra.ElemInv = func(st *State, v Val) {
+			ne := venv.with(name, v)
+			ne.st, ne.old = st, st
+			st.assume(fr.evalBool(body, ne))
+		}
+		return tTrue
 	case "implements":
 		// implements(x, T): the comma-ok result of the type assertion x.(T), T an interface or type of
 		// the function's package (the same term the executor uses for the assertion in the code)
